@@ -88,7 +88,8 @@ def scfgP : P SCfg := do
 def showDis (s : SState) (cls : DClass) : String :=
   -- both layers: the base acceptor's disagreements and those of the lineage layer (Model/SchedSeq.lean)
   let ds := s.dis.filter (fun d => d.cls == cls)
-  if ds.isEmpty then "-" else " / ".intercalate (ds.map (fun d => s!"@{d.at_} {d.msg}"))
+  -- one response per line: `repr` of a long queue wraps, so line breaks inside a message become blanks
+  if ds.isEmpty then "-" else " / ".intercalate (ds.map (fun d => s!"@{d.at_} {(d.msg.replace "\n" " ").replace " ; " " , "}"))
 
 def handleSchedRun : Toks → Option String :=
   fun ts => runAll (do
